@@ -210,7 +210,62 @@ class RealReaderScn:
         return None, 1
 
 
-SCENARIOS = {"writer": WriterScn, "reader": RealReaderScn}
+class SendonlyReaderScn:
+    """the peer dropped its handle but keeps listening through a callback ("sendonly" here): reading
+    to the end through makefile('r') must not close the channel unless proxyclose was requested"""
+
+    @staticmethod
+    def scenario(w, P):
+        S = Session(w, "popen", "thread")
+
+        def main():
+            gw = S.open()
+            ctl = gw.remote_exec(
+                "W = channel.gateway.execmodel.world\nc = channel.receive()\nc.send('ab\\n')\nc.send('c')\nc.setcallback(lambda x: W.observe('peer-cb', x))\ndel c\nchannel.send('dropped')\nchannel.receive()"
+            )
+            c = gw.newchannel()
+            ctl.send(c)
+            ctl.receive(timeout=10)
+            S.proc.execmodel.sleep(0.5)
+            f = c.makefile("r", proxyclose=P["proxyclose"])
+            out = [f.readline(), f.read(5), f.read(1), f.readline()]
+            w.observe("read", out, c.isclosed())
+            res = []
+            for item in ("x", "", b"y"):
+                try:
+                    c.makefile("w").write(item)
+                    res.append("ok")
+                except OSError:
+                    res.append("OSError")
+            w.observe("writes", res)
+            S.proc.execmodel.sleep(0.5)
+            ctl.send("done")
+            w.observe("main-done")
+            S.group.terminate(timeout=1.0)
+
+        S.main(main)
+        return S
+
+    @staticmethod
+    def oracle(w, S, P):
+        obs = w.obs
+        if ("main-done",) not in obs:
+            return ("c19:sendonly-hang", f"obs={obs} blocked={w.blocked_at_end} stderr={w.stderr.getvalue()[-300:]}"), 0
+        rd = [e for e in obs if e[0] == "read"][0]
+        if rd[1] != ["ab\n", "c", "", ""]:
+            return ("c19:sendonly-read", f"read results {rd[1]}"), 0
+        closed = rd[2]
+        if closed != P["proxyclose"]:
+            return ("c19:read-file-closed-channel", f"after reading to the end, channel closed={closed} but proxyclose={P['proxyclose']} (the peer only dropped its handle and still listens)"), 0
+        if not P["proxyclose"]:
+            wr = [e for e in obs if e[0] == "writes"][0][1]
+            got = [e[1] for e in obs if e[0] == "peer-cb"]
+            if wr != ["ok", "ok", "ok"] or got != ["x", "", b"y"]:
+                return ("c19:read-file-closed-channel", f"writes after reading to the end: {wr}; the peer's callback received {got}"), 0
+        return None, 1
+
+
+SCENARIOS = {"writer": WriterScn, "reader": RealReaderScn, "sendonly": SendonlyReaderScn}
 
 
 def run(tier: str, only=None) -> int:
@@ -261,6 +316,11 @@ def run(tier: str, only=None) -> int:
                 if r.violation is not None:
                     rep.violation(r.violation[0] + ("-bytes" if isinstance(items[0], bytes) else ""), r.violation[1], {"check": PID, "sub": "reader", "params": {"items": repr(items), "calls": calls}})
     rep.add_enumeration("reader-real-channel", nr, nr)
+    for pc in (False, True):
+        r = explorer.run_once(SendonlyReaderScn.scenario, SendonlyReaderScn.oracle, {"proxyclose": pc}, [], want_fp=False)
+        if r.violation is not None:
+            rep.violation(r.violation[0], r.violation[1], {"check": PID, "sub": "sendonly", "proxyclose": pc})
+    rep.add_enumeration("reader-on-sendonly-channel", 2, 2)
     rep.assumptions += ["the exhaustive reader runs drive Channel.makefile('r') over a stub receive() (items, then EOFError forever); a set of histories over the real Channel in a virtual session binds them to the implementation"]
     return rep.finish()
 
